@@ -16,7 +16,7 @@ F_DER = "generate_derivative_real_spherical_harmonics"
 F_SOL = "solid_harmonics"
 F_C2S = "convert_cart_to_sph"
 REQUIRED_HOOKS = ["utils." + f for f in (F_REC, F_SCI, F_DER, F_SOL, F_C2S)]
-REQUIRED_FAMILIES = ["values", "derivative", "solid", "cart2sph", "chain", "library-callers"]
+REQUIRED_FAMILIES = ["values", "derivative", "solid", "cart2sph", "chain", "library-callers", "dtype-angles", "dtype-cart2sph", "history"]
 BUDGET = {"quick": 600, "thorough": 6000}
 RULE = (
     "Post-conditions attached to the five public functions of grid.utils (all bindings, fire on every call incl. the "
@@ -31,7 +31,11 @@ RULE = (
     "pi/6), nearpole (1e-3..1e-9), reflected polar angles (observed only). cart2sph: centre None/origin/random/far/list x "
     "point classes random/axis/equator/centre/nearpole/scales; library-callers: AtomGrid.radial_component_splines and "
     "Grid.moments('pure') drive the monitored functions through their other bindings on the library's own grid angles. "
-    "A case is non-trivial when at least one decided oracle "
+    "dtype-angles / dtype-cart2sph: the same values handed over as int64/int32/int16/float32/non-contiguous arrays and the centre "
+    "as None/list/tuple/ndarray (integer, fractional, float32, strided): decided by the same post-conditions and compared with the "
+    "result for the contiguous float64 copy; history: a monitor keeps the last 3 arrays returned by each of the five functions "
+    "(plus explicit same-shape call sequences) and re-verifies after every later call that they still hold the values they had "
+    "when returned and share no memory with newer results. A case is non-trivial when at least one decided oracle "
     "evaluation ran on it; reflected-angle cases are marked trivial."
 )
 ASSUMPTIONS = [
@@ -41,6 +45,10 @@ ASSUMPTIONS = [
     "convert_cart_to_sph tolerances follow the conditioning of the documented formula phi = arccos(z/r): "
     "delta = eps (1 + (|p|+|c|)/r), polar error <= 50 delta / max(sin phi, sqrt(delta)) (half precision within 1e-8 of the poles is "
     "recorded as an observation), azimuth error * sin phi <= 20 delta; azimuth at the centre for negative-zero offsets is recorded only",
+    "single-precision arguments: float32 angles are decided up to lmax 60 at the conditioning of the input rounding, "
+    "8 eps32 (1+lmax)^2 (1+max|angle|) + 64 eps32 (values) / (1+lmax)^3 (derivatives); convert_cart_to_sph is decided at float64 tolerance "
+    "unless NumPy's result type of points - centre is float32 (all floating arguments single precision), then at eps32; integer "
+    "arguments must give exactly the float64 result",
     "oracle: float64 normalised recursion validated against mpmath at start-up; numerical differentiation validated on closed forms at start-up",
 ]
 LEVEL_TEXT = (
@@ -73,6 +81,106 @@ def tol_deriv(lmax, theta, phi):
     """float64 rounding of m*theta (and of tan phi / SciPy's Y_l,m+1) is amplified by m: eps m^2 |angle| |Y|."""
     a = 1.0 + max(float(np.max(np.abs(theta), initial=0.0)), float(np.max(np.abs(phi), initial=0.0)))
     return 1e-14 * (1 + lmax) ** 2.5 * a
+
+
+def _work_eps(points, center):
+    """Precision NumPy works in for `points - center` (np.result_type of the two arguments): float64 unless every floating
+    argument is single precision (float32 points with a float32 centre, int16 points with a float32 centre, ...)."""
+    rt = np.result_type(np.asarray(points).dtype, np.zeros(3).dtype if center is None else np.asarray(center).dtype)
+    if rt.kind == "f" and rt.itemsize < 8:
+        return float(np.finfo(rt).eps)
+    return o8.EPS
+
+
+def _low_eps(*arrays):
+    """Machine epsilon of the coarsest floating dtype among the inputs when it is coarser than float64, else None."""
+    worst = None
+    for a in arrays:
+        dt = np.asarray(a).dtype
+        if dt.kind == "f" and dt.itemsize < 8:
+            e = float(np.finfo(dt).eps)
+            worst = e if worst is None else max(worst, e)
+    return worst
+
+
+LOW_PREC_LMAX = 60  # single-precision angles are decided up to here (above, the conditioning floor exceeds the effect of a break)
+
+
+def tol_low(eps_in, lmax, angles, power=2):
+    """Angles given in single precision: the result carries the conditioning of the input rounding (and SciPy then works in
+    single precision): calibrated 8 eps_in (1+lmax)^2 (1+max|angle|) + 64 eps_in for values (largest seen > 100x below at every
+    lmax 0..60), power 3 for derivatives."""
+    a = 1.0 + max([float(np.max(np.abs(np.asarray(x, dtype=float)), initial=0.0)) for x in angles] + [0.0])
+    return 8.0 * eps_in * (1 + lmax) ** power * a + 64.0 * eps_in
+
+
+# ---------------------------------------------------------------------------------- result-stability history
+HIST_KEEP = 3  # results retained per function (each with a copy taken at return time)
+HIST_MAX_BYTES = 12e6  # larger results are not retained (memory); the retained ones cover every lmax up to ~150
+_HIST = {}  # function name -> list of {"obj": returned array, "copy": copy taken at return time, "seq": call number}
+_SEQ = {"n": 0}
+
+
+def _shares(a, b):
+    try:
+        return bool(np.shares_memory(a, b))
+    except Exception:  # TooHardError
+        return bool(np.may_share_memory(a, b))
+
+
+def _handed_to_library():
+    """True when the monitored call was made by library code (grid/*.py): that caller owns the array it receives and may
+    legitimately write into it (AtomGrid.convert_cartesian_to_spherical does), so only results handed to the workload are
+    retained for the stability history."""
+    import sys
+
+    from gridrv import core
+
+    f = sys._getframe(1)
+    here = __file__
+    while f is not None:
+        fn = f.f_code.co_filename
+        if fn != here and not fn.endswith("instrument.py"):
+            return fn.startswith(core.GRIDDIR)
+        f = f.f_back
+    return False
+
+
+def _entry_state(e):
+    o, c = e["obj"], e["copy"]
+    return o.shape == c.shape and o.dtype == c.dtype and bool(np.array_equal(o, c, equal_nan=True))
+
+
+def _history(ctx, fname, res):
+    """History monitor: arrays handed out by EARLIER calls must keep their values after later calls, and a new result must
+    not share memory with any earlier result (of any of the five functions)."""
+    if not isinstance(res, np.ndarray):
+        return
+    _SEQ["n"] += 1
+    mine = _HIST.setdefault(fname, [])
+    if mine:
+        bad = [e for e in mine if not _entry_state(e)]
+        _chk(ctx, "result-stable-after-later-calls", fname, not bad, sig="earlier-result-overwritten", detail=None if not bad else {"shape": list(bad[0]["obj"].shape), "calls_between": _SEQ["n"] - bad[0]["seq"], "same_shape_as_new": bad[0]["obj"].shape == res.shape, "max_change": _maxabs(np.asarray(bad[0]["obj"], dtype=float) - np.asarray(bad[0]["copy"], dtype=float))})
+        for e in bad:
+            e["copy"] = e["obj"].copy()
+        ctx.count("history-results-reverified", len(mine))
+    shared = [(fn, e) for fn, lst in _HIST.items() for e in lst if e["obj"] is res or _shares(e["obj"], res)]
+    if any(_HIST.values()):
+        _chk(ctx, "results-do-not-share-memory", fname, not shared, sig=None if not shared else ("same-object-returned-again" if shared[0][1]["obj"] is res else "memory-shared") + ":" + shared[0][0], detail=None if not shared else {"earlier_function": shared[0][0], "shape": list(res.shape), "calls_between": _SEQ["n"] - shared[0][1]["seq"]})
+    if _handed_to_library():
+        ctx.count("history-results-handed-to-library-callers-not-retained")
+        return
+    if res.nbytes <= HIST_MAX_BYTES and not any(e["obj"] is res for e in mine):
+        mine.append({"obj": res, "copy": res.copy(), "seq": _SEQ["n"]})
+        del mine[:-HIST_KEEP]
+
+
+def finish(ctx):
+    """End of the worker: every retained result still holds the values it had when it was returned."""
+    for fn, lst in _HIST.items():
+        if lst:
+            bad = [e for e in lst if not _entry_state(e)]
+            _chk(ctx, "result-stable-after-later-calls", fn, not bad, sig="earlier-result-overwritten", detail=None if not bad else {"shape": list(bad[0]["obj"].shape), "at": "end-of-worker"})
 
 
 # ---------------------------------------------------------------------------------- helpers
@@ -171,6 +279,13 @@ def _check_values(ctx, fname, res, lmax, theta, phi):
     ref = sph.ref_Y(lmax, th, ph)
     err = np.abs(np.asarray(Y - ref, dtype=float))
     tol = tol_values(lmax)
+    low = _low_eps(theta, phi)
+    if low is not None:
+        if low > 1e-6 or lmax > LOW_PREC_LMAX:
+            ctx.count("low-precision-angles-not-decided:" + fname)
+            return True
+        tol = max(tol, tol_low(low, lmax, (th, ph)))
+        ctx.count("single-precision-angle-calls:" + fname)
     if decided.any():
         ed = err[:, decided]
         rows = np.where(np.isnan(ed), np.inf, ed).max(axis=1)
@@ -187,7 +302,7 @@ def _check_values(ctx, fname, res, lmax, theta, phi):
         if k > 2:
             perm[0] = 0  # a self pair: Unsoeld's theorem
         resid = o8.addition_residual(dY, lmax, dth, dph, perm)
-        ta = tol_addition(lmax)
+        ta = tol_addition(lmax) if low is None else tol
         bad = np.where(~(resid <= ta))[0]
         _chk(ctx, "addition-theorem", fname, float(np.where(np.isnan(resid), np.inf, resid).max()), ta, sig=None if len(bad) == 0 else f"first-bad-l={int(bad[0])}", detail=None if len(bad) == 0 else {"lmax": lmax, "first_bad_l": int(bad[0]), "n_bad_l": int(len(bad)), "resid": float(resid[bad[0]])})
     refl = ~decided
@@ -208,14 +323,17 @@ def _post_rec(ctx):
         if exc is not None:
             ctx.fail("no-exception", F_REC, f"raised:{type(exc).__name__}", detail={"error": str(exc)[:200], "lmax": int(lmax), "n": len(theta)})
             return
+        _history(ctx, F_REC, res)
         if not _check_values(ctx, F_REC, res, lmax, theta, phi):
             return
         # both implementations agree (decided domain)
         lmax = int(lmax)
         th = np.asarray(theta, dtype=float)
         ph = np.asarray(phi, dtype=float)
-        if len(th) == 0:
+        low = _low_eps(theta, phi)
+        if len(th) == 0 or (low is not None and (low > 1e-6 or lmax > LOW_PREC_LMAX)):
             return
+        tol = tol_values(lmax) if low is None else tol_low(low, lmax, (th, ph))
         idx = _subsample(len(th), lmax, factor=0.5)
         decided, _ = o8.classify_polar(ph[idx])
         idx = idx[decided]
@@ -228,8 +346,8 @@ def _post_rec(ctx):
             return
         err = np.abs(np.asarray(res[:, idx] - other, dtype=float))
         rows = np.where(np.isnan(err), np.inf, err).max(axis=1)
-        sig = _first_bad(rows, tol_values(lmax))
-        _chk(ctx, "implementations-agree", "recursion-vs-scipy", float(rows.max()), tol_values(lmax), sig=sig, detail=None if sig is None else dict(_worst(err, th[idx], ph[idx]), lmax=lmax))
+        sig = _first_bad(rows, tol)
+        _chk(ctx, "implementations-agree", "recursion-vs-scipy", float(rows.max()), tol, sig=sig, detail=None if sig is None else dict(_worst(err, th[idx], ph[idx]), lmax=lmax))
 
     return post
 
@@ -243,6 +361,7 @@ def _post_sci(ctx):
         if exc is not None:
             ctx.fail("no-exception", F_SCI, f"raised:{type(exc).__name__}", detail={"error": str(exc)[:200], "lmax": int(lmax), "n": len(theta)})
             return
+        _history(ctx, F_SCI, res)
         _check_values(ctx, F_SCI, res, lmax, theta, phi)
 
     return post
@@ -265,8 +384,13 @@ def _post_der(ctx):
         shape = tuple(getattr(res, "shape", ()))
         if not _chk(ctx, "shape", F_DER, shape == (2, nrow, n), sig="wrong-shape", detail={"shape": list(shape), "lmax": lmax, "n": n}):
             return
+        _history(ctx, F_DER, res)
         if n == 0:
             ctx.count("empty-input-calls")
+            return
+        low = _low_eps(theta, phi)
+        if low is not None and (low > 1e-6 or lmax > LOW_PREC_LMAX):
+            ctx.count("low-precision-angles-not-decided:" + F_DER)
             return
         decided, pole = o8.classify_polar(ph)
         # finite everywhere on the decided domain, poles included
@@ -281,13 +405,15 @@ def _post_der(ctx):
             idx = idx[np.unique(np.linspace(0, len(idx) - 1, 4 * cap).astype(int))]
             ctx.count("subsampled-calls")
         tol = tol_deriv(lmax, th[idx], ph[idx])
+        if low is not None:
+            tol = max(tol, tol_low(low, lmax, (th[idx], ph[idx]), power=3))
         # d/dtheta against the oracle (d/dtheta cos(m theta) = -m sin(m theta): row(l,m) -> -m * row(l,-m))
         q, ms = o8.partner_rows(lmax)
         ref = sph.ref_Y(lmax, th[idx], ph[idx])
         want = -ms[:, None] * ref[q]
         e = np.abs(np.asarray(res[0][:, idx] - want, dtype=float))
         rows = np.where(np.isnan(e), np.inf, e).max(axis=1)
-        t0 = tol_values(lmax) * (1 + lmax)
+        t0 = tol_values(lmax) * (1 + lmax) if low is None else tol
         sig = _first_bad(rows, t0)
         _chk(ctx, "dtheta-vs-oracle", F_DER, float(rows.max()), t0, sig=sig, detail=None if sig is None else dict(_worst(e, th[idx], ph[idx]), lmax=lmax))
         # both derivatives against numerical differentiation of the implemented harmonics (longdouble)
@@ -357,7 +483,12 @@ def _post_sol(ctx):
         shape = tuple(getattr(res, "shape", ()))
         if not _chk(ctx, "shape", F_SOL, shape == ((lmax + 1) ** 2, n), sig="wrong-shape", detail={"shape": list(shape), "lmax": lmax, "n": n}):
             return
+        _history(ctx, F_SOL, res)
         if n == 0:
+            return
+        low = _low_eps(pts_a)
+        if low is not None and (low > 1e-6 or lmax > LOW_PREC_LMAX):
+            ctx.count("low-precision-angles-not-decided:" + F_SOL)
             return
         idx = _subsample(n, lmax)
         decided, _ = o8.classify_polar(ph[idx])
@@ -373,7 +504,7 @@ def _post_sol(ctx):
             ratio = np.where(usable, np.asarray(R, dtype=o8.LD) / np.where(usable, scale, 1), ref)
         e = np.abs(np.asarray(ratio - ref, dtype=float))
         rows = np.where(np.isnan(e), np.inf, e).max(axis=1)
-        tol = tol_values(lmax)
+        tol = tol_values(lmax) if low is None else tol_low(low, lmax, (th, ph))
         sig = _first_bad(rows, tol)
         _chk(ctx, "solid-harmonics-scaled", F_SOL, float(rows.max()), tol, sig=sig, detail=None if sig is None else dict(_worst(e, th, ph), lmax=lmax, r_at_worst=float(r[np.argmax(np.where(np.isnan(e), np.inf, e).max(axis=0))])))
         zero = r == 0
@@ -385,7 +516,7 @@ def _post_sol(ctx):
             xyz = np.asarray(o8.sph_to_unit(th, ph) * r.astype(o8.LD)[:, None], dtype=float)
             got = np.asarray(R[1:4], dtype=float)
             want = np.stack([xyz[:, 2], xyz[:, 0], xyz[:, 1]])
-            _chk(ctx, "solid-l1-is-zxy", F_SOL, float(np.max(np.abs(got - want) / np.maximum(r, 1e-300)[None, :], initial=0.0)), 1e-13, sig="l=1-not-(z,x,y)")
+            _chk(ctx, "solid-l1-is-zxy", F_SOL, float(np.max(np.abs(got - want) / np.maximum(r, 1e-300)[None, :], initial=0.0)), 1e-13 if low is None else 16 * low * (1 + _maxabs(th) + _maxabs(ph)), sig="l=1-not-(z,x,y)")
 
     return post
 
@@ -409,8 +540,10 @@ def _post_c2s(ctx):
         shape = tuple(getattr(res, "shape", ()))
         if not _chk(ctx, "shape", F_C2S, shape == (n, 3), sig="wrong-shape", detail={"shape": list(shape), "n": n}):
             return
+        _history(ctx, F_C2S, res)
         if n == 0:
             return
+        ctx.count("cart2sph-calls-by-point-dtype:" + str(P.dtype))
         S = np.asarray(res, dtype=float)
         rel = np.asarray(P, dtype=o8.LD) - np.asarray(C, dtype=o8.LD)
         rel64 = np.asarray(P, dtype=float) - np.asarray(C, dtype=float)
@@ -433,7 +566,13 @@ def _post_c2s(ctx):
         Sm, relm, rr = S[m], rel[m], r_ref[m]
         mag = np.max(np.abs(np.asarray(P, dtype=float)[m]), axis=1) + float(np.max(np.abs(np.asarray(C, dtype=float))))
         rr64 = np.asarray(rr, dtype=float)
-        delta = o8.EPS * (1 + mag / rr64)
+        weps = _work_eps(P, center)
+        if weps > 1e-6:
+            ctx.count("low-precision-points-not-decided:" + F_C2S)
+            return
+        if weps > o8.EPS:
+            _observe(ctx, "cart2sph: all floating arguments single precision -> NumPy subtracts in float32, result decided at single-precision tolerance", points_dtype=str(P.dtype), center_dtype=str(np.asarray(center).dtype))
+        delta = weps * (1 + mag / rr64)
         e_r = np.abs(np.asarray(Sm[:, 0] - rr, dtype=float)) / rr64 / delta
         _chk(ctx, "cart2sph-radius", F_C2S, float(e_r.max()), 8.0, sig="r-wrong", detail={"worst_units_of_delta": float(e_r.max())})
         sinp = np.asarray(np.sqrt(relm[:, 0] ** 2 + relm[:, 1] ** 2) / rr, dtype=float)
@@ -469,6 +608,8 @@ ANGLE_KINDS = ["random", "wide", "poles", "equator", "lattice", "nearpole", "ref
 DERIV_KINDS = ["random", "wide", "poles", "equator", "lattice", "nearpole"]
 C2S_CENTERS = ["none", "origin", "random", "far", "list", "int"]
 C2S_POINTS = ["random", "axis", "equator", "centre", "nearpole", "scales"]
+C2S_DTYPES = ["int64", "int32", "int16", "float32", "float64-column-view", "float64-fortran", "float64-reversed"]
+C2S_CENTER_FORMS = ["none", "list-fractional", "tuple-integer", "ndarray-fractional", "ndarray-integer", "list-integer", "ndarray-float32", "ndarray-strided"]
 
 
 def _n_values(lmax, tier):
@@ -516,6 +657,24 @@ def cases(tier, seed):
                 out.append(("cart2sph", {"center": c, "points": p, "k": k}, 0.5))
     for k in range(4 if quick else 24):
         out.append(("library-callers", {"k": k}, 0.6))
+    # argument FORMS: integer / single-precision / non-contiguous arrays, centre as None / list / tuple / ndarray
+    for fn in ("rec", "sci", "der", "sol"):
+        for dt in ("int64", "int32", "float32", "strided"):
+            for lmax in (0, 1, 2, 3, 5, 8, 12, 20) if quick else (0, 1, 2, 3, 4, 5, 6, 8, 10, 12, 16, 20, 35, 60):
+                for k in range(1 if quick else 3):
+                    out.append(("dtype-angles", {"fn": fn, "dtype": dt, "lmax": lmax, "k": k}, 0.3 + 1e-3 * (lmax + 1) ** 2))
+    for dt in C2S_DTYPES:
+        for cf in C2S_CENTER_FORMS:
+            for k in range(1 if quick else 6):
+                out.append(("dtype-cart2sph", {"dtype": dt, "center": cf, "k": k}, 0.4))
+    # result-stability histories: same-shape call sequences per function, earlier results re-verified afterwards
+    for fn in ("rec", "sci", "der", "sol", "c2s"):
+        for lmax in (0, 3, 12, 35):
+            for n in (1, 17, 64):
+                for k in range(1 if quick else 4):
+                    if fn == "c2s" and lmax > 0:
+                        continue
+                    out.append(("history", {"fn": fn, "lmax": lmax, "n": n, "k": k}, 0.5 + 2e-4 * (lmax + 1) ** 2 * n / 10))
     out.append(("cart2sph-negzero-observed", {}, 0.5))
     out.append(("edge", {"what": "empty"}, 0.5))
     out.append(("edge", {"what": "single-point"}, 0.5))
@@ -643,6 +802,12 @@ def run_case(ctx, family, params):
         ctx.trivial()
     elif family == "library-callers":
         _run_callers(ctx, params)
+    elif family == "dtype-angles":
+        _run_dtype_angles(ctx, gu, params)
+    elif family == "dtype-cart2sph":
+        _run_dtype_c2s(ctx, gu, params)
+    elif family == "history":
+        _run_history(ctx, gu, params)
     elif family == "edge":
         _run_edge(ctx, gu, params)
     else:
@@ -725,6 +890,154 @@ def _run_c2s(ctx, gu, params):
         w = int(np.argmax(e_t))
         _chk(ctx, "cart2sph-inverts-parametrisation", F_C2S + ":theta", float(e_t.max()), 1.0, sig="theta-wrong", detail={"theta": float(th[m][az][w]), "got": float(s[m, 1][az][w]), "tol": float(tol_t[w]), "center_kind": ck, "points_kind": pk})
     ctx.case_note("max_phi_err", float(np.abs(s[m, 2] - ph[m]).max()))
+
+
+def _call(gu, fn, lmax, th, ph, r=None):
+    if fn == "rec":
+        return gu.generate_real_spherical_harmonics(lmax, th, ph)
+    if fn == "sci":
+        return gu.generate_real_spherical_harmonics_scipy(lmax, th, ph)
+    if fn == "der":
+        return gu.generate_derivative_real_spherical_harmonics(lmax, th, ph)
+    if fn == "sol":
+        return gu.solid_harmonics(lmax, np.stack([r, th, ph], axis=1))
+    raise ValueError(fn)
+
+
+FN_NAME = {"rec": F_REC, "sci": F_SCI, "der": F_DER, "sol": F_SOL, "c2s": F_C2S}
+
+
+def _run_dtype_angles(ctx, gu, params):
+    """The same VALUES handed over as integer / single-precision / non-contiguous arrays: the post-conditions decide the
+    result against the oracle; here the result is compared with the one for the contiguous float64 copy."""
+    rng = ctx.rng
+    fn, dt, lmax = params["fn"], params["dtype"], params["lmax"]
+    n = 24
+    name = FN_NAME[fn]
+    if dt in ("int64", "int32"):
+        th = rng.integers(-20, 21, n).astype(dt)
+        th[:5] = np.arange(5)  # theta = np.arange(..)
+        ph = rng.integers(0, 4, n).astype(dt)  # 0, 1, 2, 3 rad: inside [0, pi]
+        r = rng.integers(0, 4, n).astype(dt)
+    elif dt == "float32":
+        th = rng.uniform(-7, 7, n).astype(np.float32)
+        ph = np.arccos(rng.uniform(-1, 1, n)).astype(np.float32)
+        r = rng.uniform(0.3, 3, n).astype(np.float32)
+    else:  # non-contiguous float64 views (every third element / reversed)
+        th = rng.uniform(-20, 20, 3 * n)[::3]
+        ph = np.arccos(rng.uniform(-1, 1, n))[::-1]
+        r = rng.uniform(0.3, 3, 2 * n)[1::2]
+    with ctx.guard("no-exception", f"{name}:{dt}"):
+        if fn == "sol":
+            pts = np.stack([r, th, ph], axis=1)  # common dtype of the three columns
+            if dt == "strided":
+                pts = np.asfortranarray(np.stack([r, th, ph, r], axis=1))[:, :3]
+            a = gu.solid_harmonics(lmax, pts)
+            b = gu.solid_harmonics(lmax, np.ascontiguousarray(pts, dtype=float))
+        else:
+            a = _call(gu, fn, lmax, th, ph)
+            b = _call(gu, fn, lmax, np.ascontiguousarray(th, dtype=float), np.ascontiguousarray(ph, dtype=float))
+    if np.shape(a) != np.shape(b):
+        ctx.fail("same-result-for-other-argument-form", f"{name}:{dt}", "shape-differs", detail={"a": list(np.shape(a)), "b": list(np.shape(b))})
+        return
+    d = np.abs(np.asarray(a, dtype=o8.LD) - np.asarray(b, dtype=o8.LD))
+    scale = 1.0 + np.abs(np.asarray(b, dtype=o8.LD))
+    if fn == "sol":  # compare per point in units of sqrt(4pi/(2l+1)) r^l
+        sc = o8.solid_scale(lmax, np.asarray(r, dtype=float))
+        scale = np.where(sc > 0, sc, 1) * (1.0 + np.abs(np.asarray(b, dtype=o8.LD)) / np.where(sc > 0, sc, 1))
+    err = float(np.max(np.where(np.isnan(d), np.inf, d) / scale, initial=0.0))
+    if dt == "float32":
+        tol = tol_low(float(np.finfo(np.float32).eps), lmax, (th, ph), power=3 if fn == "der" else 2)
+    elif dt == "strided":  # NumPy's strided and contiguous sin/cos loops may differ in the last bit
+        tol = 1e-12 * (1 + lmax)
+    else:
+        tol = 1e-13
+    _chk(ctx, "same-result-for-other-argument-form", f"{name}:{dt}", err, tol, sig="differs-from-float64-copy", detail={"lmax": lmax, "err": err})
+
+
+def _run_dtype_c2s(ctx, gu, params):
+    """Lattice / single-precision / non-contiguous point arrays with every documented form of the centre."""
+    rng = ctx.rng
+    dt, cf = params["dtype"], params["center"]
+    n = 60
+    if dt.startswith("int"):
+        pts = rng.integers(-6, 7, (n, 3)).astype(dt)
+        pts[:5] = [[0, 0, 0], [0, 0, 3], [0, 0, -2], [1, 0, 0], [-1, 0, 0]]
+    elif dt == "float32":
+        pts = (rng.normal(size=(n, 3)) * 10.0 ** rng.uniform(-1, 1)).astype(np.float32)
+    elif dt == "float64-column-view":
+        pts = rng.normal(size=(n, 7))[:, 2:5]
+    elif dt == "float64-fortran":
+        pts = np.asfortranarray(rng.normal(size=(n, 3)))
+    else:
+        pts = rng.normal(size=(2 * n, 3))[::-2, ::-1]
+    frac = np.round(rng.uniform(-2, 2, 3), 2) + 0.013
+    frac[0] = 0.5
+    ints = rng.integers(-3, 4, 3)
+    center = {
+        "none": None,
+        "list-fractional": [float(v) for v in frac],
+        "tuple-integer": tuple(int(v) for v in ints),
+        "ndarray-fractional": frac.copy(),
+        "ndarray-integer": ints.astype(np.int64),
+        "list-integer": [int(v) for v in ints],
+        "ndarray-float32": frac.astype(np.float32),
+        "ndarray-strided": np.stack([frac, frac], axis=1)[:, 0],
+    }[cf]
+    subj = f"{F_C2S}:{dt}:{cf}"
+    with ctx.guard("no-exception", subj):
+        a = gu.convert_cart_to_sph(pts, center) if center is not None else gu.convert_cart_to_sph(pts)
+        c64 = None if center is None else np.ascontiguousarray(np.asarray(center), dtype=float)
+        b = gu.convert_cart_to_sph(np.ascontiguousarray(pts, dtype=float), c64)
+    if np.shape(a) != np.shape(b):
+        ctx.fail("same-result-for-other-argument-form", subj, "shape-differs", detail={"a": list(np.shape(a)), "b": list(np.shape(b))})
+        return
+    a, b = np.asarray(a, dtype=float), np.asarray(b, dtype=float)
+    # exact values of the arguments as given, in extended precision
+    cl = np.zeros(3, dtype=o8.LD) if center is None else np.asarray(center).astype(o8.LD)
+    rel = np.asarray(pts).astype(o8.LD) - cl
+    rr = np.asarray(np.sqrt(np.sum(rel * rel, axis=1)), dtype=float)
+    nz = rr > 0
+    mag = float(np.max(np.abs(np.asarray(pts, dtype=float)))) + float(np.max(np.abs(np.asarray(cl, dtype=float))))
+    delta = _work_eps(pts, center) * (1 + mag / np.where(nz, rr, 1.0))
+    sinp = np.asarray(np.sqrt(rel[:, 0] ** 2 + rel[:, 1] ** 2), dtype=float) / np.where(nz, rr, 1.0)
+    tol = 100 * delta / np.maximum(sinp, np.sqrt(delta)) + 50 * delta
+    back_a = o8.sph_to_unit(a[:, 1], a[:, 2]) * np.asarray(a[:, 0], dtype=o8.LD)[:, None]
+    back_b = o8.sph_to_unit(b[:, 1], b[:, 2]) * np.asarray(b[:, 0], dtype=o8.LD)[:, None]
+    # 1. same answer as for the contiguous float64 copy of the same values
+    e1 = np.asarray(np.sqrt(np.sum((back_a - back_b) ** 2, axis=1)), dtype=float) / np.where(nz, rr, 1.0)
+    same0 = bool(np.all(a[~nz][:, [0, 2]] == b[~nz][:, [0, 2]])) if (~nz).any() else True
+    w = int(np.argmax(np.where(np.isnan(e1), np.inf, e1) / tol))
+    _chk(ctx, "same-result-for-other-argument-form", subj, float(np.max(np.where(np.isnan(e1), np.inf, e1) / tol)) if same0 else float("inf"), 1.0, sig="differs-from-float64-copy", detail={"row": a[w], "float64_copy_row": b[w], "err_over_r": float(e1[w]), "tol": float(tol[w])})
+    # 2. independent of the library: the returned coordinates invert the parametrisation
+    e2 = np.asarray(np.sqrt(np.sum((back_a - rel) ** 2, axis=1)), dtype=float) / np.where(nz, rr, 1.0)
+    w = int(np.argmax(np.where(np.isnan(e2), np.inf, e2) / tol))
+    _chk(ctx, "cart2sph-inverts-parametrisation", subj, float(np.max(np.where(np.isnan(e2), np.inf, e2) / tol)), 1.0, sig="angles-do-not-reproduce-point", detail={"point": np.asarray(pts, dtype=float)[w], "centre": np.asarray(cl, dtype=float), "returned": a[w], "err_over_r": float(e2[w]), "tol": float(tol[w])})
+
+
+def _run_history(ctx, gu, params):
+    """Same-shape call sequences: every array returned earlier must still hold its values after the later calls."""
+    rng = ctx.rng
+    fn, lmax, n = params["fn"], params["lmax"], params["n"]
+    name = FN_NAME[fn]
+    held = []
+
+    def one(npts):
+        th = rng.uniform(-7, 7, npts)
+        ph = np.arccos(rng.uniform(-1, 1, npts))
+        if fn == "c2s":
+            c = rng.normal(size=3)
+            return gu.convert_cart_to_sph(rng.normal(size=(npts, 3)) + c, c)
+        return _call(gu, fn, lmax, th, ph, rng.uniform(0.2, 2, npts))
+
+    with ctx.guard("no-exception", name):
+        for npts in (n, n, n + 1, n, n):  # same shape twice, another shape, the first shape again
+            res = one(npts)
+            held.append((res, np.array(res, copy=True)))
+    changed = [i for i, (o, c) in enumerate(held) if not (o.shape == c.shape and np.array_equal(o, c, equal_nan=True))]
+    _chk(ctx, "result-stable-after-later-calls", name + ":sequence", not changed, sig="earlier-result-overwritten", detail={"changed_calls": changed, "lmax": lmax, "n": n})
+    alias = [(i, j) for i in range(len(held)) for j in range(i + 1, len(held)) if held[i][0] is held[j][0] or _shares(held[i][0], held[j][0])]
+    _chk(ctx, "results-do-not-share-memory", name + ":sequence", not alias, sig="memory-shared", detail={"pairs": alias[:4], "lmax": lmax, "n": n})
 
 
 def _run_callers(ctx, params):
